@@ -77,16 +77,38 @@ def run(ck):
     ck.rule("C09.R0", "wrapper impls discovered", floor=18)
     ck.rule("C09.R5", "Layered::pick_interest asks the inner value on every path except the outer `never` veto", floor=1)
 
+    wrapper_rules(ck, F)
+
+    check_dispatch_event(ck, F)
+    check_pick_interest(ck, F)
+
+
+RIDS = {"R0": "C09.R0", "R1": "C09.R1", "R2": "C09.R2", "R3": "C09.R3"}
+
+
+def wrapper_rules(ck, F, rids=None, traits=None, only=None):
+    """R0/R1/R2 over the wrapper impls of `traits` (default: all three), optionally restricted to the methods in `only`;
+    `rids` lets another property instantiate the same rules under its own rule id."""
+    global RIDS
+    saved = RIDS
+    RIDS = dict(saved, **(rids or {}))
+    try:
+        _wrapper_rules(ck, F, traits or TRAITS, only)
+    finally:
+        RIDS = saved
+
+
+def _wrapper_rules(ck, F, TRAITS, only):
     wrappers = []
     for tr in TRAITS:
         t = F.traits.get(tr)
-        if not ck.anchor("C09.R0", tr, t):
+        if not ck.anchor(RIDS["R0"], tr, t):
             continue
         for imp in F.impls_of(tr):
             fwd = forwarding_methods(F, imp, tr)
             if len(fwd) >= 2:
                 wrappers.append((tr, imp, fwd))
-                ck.ok("C09.R0", "%s for %s" % (short(tr), imp["self_ty"]), nontrivial=False)
+                ck.ok(RIDS["R0"], "%s for %s" % (short(tr), imp["self_ty"]), nontrivial=False)
 
     for tr, imp, fwd in wrappers:
         t = F.traits[tr]
@@ -94,13 +116,13 @@ def run(ck):
         iname = "%s for %s" % (short(tr), imp["self_ty"])
         for m in t["methods"]:
             name = m["name"]
-            if (tr, name) in GLOBAL_EXEMPT:
+            if (tr, name) in GLOBAL_EXEMPT or (only is not None and name not in only):
                 continue
             if m["has_default"]:
                 if name in imp["methods"]:
-                    ck.ok("C09.R1", "%s::%s" % (iname, name), fn=imp["methods"][name])
+                    ck.ok(RIDS["R1"], "%s::%s" % (iname, name), fn=imp["methods"][name])
                 else:
-                    ck.bad("C09.R1", "%s::%s" % (iname, name), imp["span"],
+                    ck.bad(RIDS["R1"], "%s::%s" % (iname, name), imp["span"],
                            "wrapper does not override defaulted method `%s`: the wrapped value never sees it" % name)
             if name not in imp["methods"]:
                 continue
@@ -108,8 +130,6 @@ def run(ck):
                 continue  # downcast_raw is about type identity, not a notification
             check_forwarding(ck, F, tr, imp, iname, m)
 
-    check_dispatch_event(ck, F)
-    check_pick_interest(ck, F)
 
 
 def short(tr):
@@ -206,7 +226,7 @@ def check_forwarding(ck, F, tr, imp, iname, m):
     top = F.body(path)
     key = "%s::%s" % (iname, name)
     if top is None:
-        ck.bad("C09.R2", key, imp["span"], "no MIR body for override")
+        ck.bad(RIDS["R2"], key, imp["span"], "no MIR body for override")
         return
     hd = head(imp["self_ty"])
     bodies = bodies_of(F, path)
@@ -222,7 +242,7 @@ def check_forwarding(ck, F, tr, imp, iname, m):
             if (c.get("trait"), c.get("method")) in want and c.get("self_ty") != imp["self_ty"]:
                 fwd.append((b, bb, t))
     if not fwd:
-        ck.bad("C09.R2", key, where(top.raw["sp"]),
+        ck.bad(RIDS["R2"], key, where(top.raw["sp"]),
                "override of `%s` contains no call to `%s` on a wrapped value" % (name, name), fn=path)
         return
     # group by receiver
@@ -281,9 +301,9 @@ def check_forwarding(ck, F, tr, imp, iname, m):
         if not top.postdominates(fb, 0):
             problems.append("a path returns without reaching the forwarding call")
     if problems:
-        ck.bad("C09.R2", key, where(top.raw["sp"]), "; ".join(problems), fn=path)
+        ck.bad(RIDS["R2"], key, where(top.raw["sp"]), "; ".join(problems), fn=path)
     else:
-        ck.ok("C09.R2", key, fn=path,
+        ck.ok(RIDS["R2"], key, fn=path,
               detail=dict(forwards=[dict(on=r, method=s[0][2]["callee"]["method"], trait=short(t_)) for (t_, r), s in by_recv.items()]))
     # R3 ordering for Layered
     if hd.endswith("::Layered") and (tr == COLLECT or tr == SUBSCRIBE):
@@ -300,22 +320,22 @@ def check_order(ck, top, by_recv, key, name, tr):
     if name in INNER_FIRST:
         if ib is top and ob is top:
             if top.dominates(ibb, obb) and ibb != obb:
-                ck.ok("C09.R3", key, detail=dict(order="inner bb%d dominates layer bb%d" % (ibb, obb)))
+                ck.ok(RIDS["R3"], key, detail=dict(order="inner bb%d dominates layer bb%d" % (ibb, obb)))
             else:
-                ck.bad("C09.R3", key, where(top.raw["sp"]),
+                ck.bad(RIDS["R3"], key, where(top.raw["sp"]),
                        "the layer is notified of `%s` without the inner value having been notified first" % name)
         else:
-            ck.bad("C09.R3", key, where(top.raw["sp"]), "unrecognised shape: forwarding calls in different bodies")
+            ck.bad(RIDS["R3"], key, where(top.raw["sp"]), "unrecognised shape: forwarding calls in different bodies")
     elif name in OUTER_FIRST_VETO:
         if ib is top and ob is top and top.dominates(obb, ibb) and ibb != obb:
             # inner must be control-dependent on the outer's verdict: a path from outer to return avoiding inner exists
             reach = top.reachable(obb, avoid=[ibb])
             if any(e in reach for e in top.exits()):
-                ck.ok("C09.R3", key, detail=dict(order="layer bb%d asked first; inner bb%d conditional" % (obb, ibb)))
+                ck.ok(RIDS["R3"], key, detail=dict(order="layer bb%d asked first; inner bb%d conditional" % (obb, ibb)))
             else:
-                ck.bad("C09.R3", key, where(top.raw["sp"]), "a veto from the layer does not skip the inner value")
+                ck.bad(RIDS["R3"], key, where(top.raw["sp"]), "a veto from the layer does not skip the inner value")
         else:
-            ck.bad("C09.R3", key, where(top.raw["sp"]), "`%s`: the outer layer must be asked first and may veto" % name)
+            ck.bad(RIDS["R3"], key, where(top.raw["sp"]), "`%s`: the outer layer must be asked first and may veto" % name)
 
 
 def check_dispatch_event(ck, F):
